@@ -3,10 +3,13 @@
 Correspondence: reposition decisions of chemicals / mine over multi-step histories under the REAL LADiM
 State (tracker writes positions in place; append / remove reallocate) and under fresh-array stubs against
 the Lean memory model (`Memory.decides`, alias vs snapshot); `is_close_to_land` / `nearest_unmasked`
-against the Lean neighbourhood model; re-seeded positions bit-exact.  Oracle: a particle is moved by the
+(free functions and the `Grid` methods with sub-grid offsets) against the Lean neighbourhood model;
+re-seeded positions (x and y, with the draw that was served for the particle) bit-exact; eel / saithe
+directed swimming over one or three steps.  Oracle: a particle is moved by the
 handler only if it existed in the previous step and has exactly the same horizontal position as then
-(reposition), only if coastal (coastal diffusion), never (freeze); a moved particle stays in its cell;
-helper queries agree with an exhaustive search; directed swimming never ends on land or outside."""
+(reposition, also when the option is absent), only if coastal (coastal diffusion; judged by an exhaustive
+search around the particle's mask cell), never (freeze; chemicals and mine); a moved particle stays in its
+(half-open) cell; helper queries agree with an exhaustive search; directed swimming never ends on land or outside."""
 import importlib
 import numpy as np
 from .common import Driver, F, I, B, unF, same_bits, RngRecorder
@@ -15,8 +18,53 @@ from .stubs import LinEnv, Obj, NumState, real_state
 RULE = ("random land masks 5..12 x 5..12, particle positions anywhere in the grid incl. cell borders and corners; histories of "
         "3..8 steps with tracker moves / stuck particles / releases / removals, under the real ladim.state.State and under "
         "fresh-array stubs, for the three strategies; half of the histories release from a point source and remove/release in the same step (constant count, changed pid set); eel and saithe directed swimming next to land and to the grid edge. "
+        "Histories: chemicals and mine, each with land_collision reposition / freeze / coastal_diffusion / key absent; sub-grid offsets i0 in {0,1,3}, j0 in {0,1,2} "
+        "(global particle coordinates, coastal query through the real Grid.is_close_to_land); start and release positions continuous, exactly on rho points and exactly on cell borders; "
+        "tracker displacements along both axes, along x only and along y only, 1e-12..0.4 cells; mine particles made inactive (the tracker skips them); "
+        "the particle set may become empty and be refilled; the stub's particle set changes too (new pids, dropped entries) and is handed out in permuted order; "
+        "served uniform draws per call or per element from {0, 2^-60, 0.5, nextafter(0.5), 1-2^-53, random}. "
+        "Helpers: query arrays of length 0, 1 and 6; free functions and Grid.is_close_to_land / Grid.nearest_sea on sub-grids with offsets. "
+        "Swimming: one or three consecutive steps (kept directions, retired larvae removed), starts within a step of the grid edge, eel on grids with cell-wise different angle / dx / dy. "
         "Non-trivial: every history step / query.")
-ASSUMPTIONS = ["LADiM 2.3.3 State/tracker semantics (in-place position writes, reallocation on append/remove) are reproduced by the harness loop"]
+ASSUMPTIONS = ["LADiM 2.3.3 State/tracker semantics (in-place position writes for the active particles only, reallocation on append/remove) are reproduced by the harness loop",
+               "the cell of a coordinate is round(coordinate) (LADiM: `X.round().astype(int) - i0`); exactly on a cell border with an odd sub-grid offset the helper's round(X - i0) names the other adjacent cell, and either cell is accepted there",
+               "the Lean memory model does not know mine's `active` flag: inactive particles are judged by the oracle only"]
+
+
+UMAX = 1.0 - 2.0 ** -53          # the largest value `np.random.rand` can return (random_sample yields k / 2**53)
+U_EDGE = [UMAX]
+
+
+def _land_around(M, ic, jc):
+    """exhaustive search: is one of the eight (clamped) neighbours of cell (ic, jc) a land cell of the sea mask M"""
+    r, cc = M.shape
+    for di in (-1, 0, 1):
+        for dj in (-1, 0, 1):
+            if di == 0 and dj == 0: continue
+            a = min(max(ic + di, 0), cc - 1); b = min(max(jc + dj, 0), r - 1)
+            if M[b, a] == 0:
+                return True
+    return False
+
+
+def _sea_among_nine(M, ic, jc, x, y):
+    """exhaustive search: (dist2 to (x, y), a, b) of every sea cell among the nine (clamped) cells around (ic, jc)"""
+    r, cc = M.shape
+    cand = []
+    for di in (-1, 0, 1):
+        for dj in (-1, 0, 1):
+            a = min(max(ic + di, 0), cc - 1); b = min(max(jc + dj, 0), r - 1)
+            if M[b, a] == 1:
+                cand.append(((a - x) ** 2 + (b - y) ** 2, a, b))
+    return cand
+
+
+def _cells(v, off):
+    """mask index of the cell that contains the global coordinate v of a sub-grid with offset `off`.  LADiM's cell
+    of a coordinate is round(v) (`Grid.atsea`: `X.round().astype(int) - i0`); the collision helpers round after
+    subtracting the offset.  The two agree except when v lies exactly on a cell border and the offset is odd
+    (half-to-even rounding); there the particle is on the border of both cells and either is accepted."""
+    return sorted({int(np.round(v)) - off, int(np.round(v - off))})
 
 
 def helpers(ctx, drv, pend, G):
@@ -24,12 +72,46 @@ def helpers(ctx, drv, pend, G):
     for c in range(ctx.n(150, 3000)):
         r = ctx.rng.randrange(3, 10); cc = ctx.rng.randrange(3, 10)
         M = np.array([[1 if ctx.rng.random() < ctx.rng.choice([0.3, 0.7, 0.95]) else 0 for _ in range(cc)] for _ in range(r)])
-        n = 6
-        i = np.array([ctx.rng.choice([0.0, cc - 1.0, ctx.rng.uniform(-0.49, cc - 0.51), float(ctx.rng.randrange(cc)) + 0.5]) for _ in range(n)])
-        j = np.array([ctx.rng.choice([0.0, r - 1.0, ctx.rng.uniform(-0.49, r - 0.51), float(ctx.rng.randrange(r)) + 0.5]) for _ in range(n)])
+        n = ctx.rng.choice([6, 6, 6, 6, 6, 1, 0])          # query arrays of length 0 and 1 as well
+        i = np.array([ctx.rng.choice([0.0, cc - 1.0, ctx.rng.uniform(-0.49, cc - 0.51), float(ctx.rng.randrange(cc)) + 0.5]) for _ in range(n)], dtype=float)
+        j = np.array([ctx.rng.choice([0.0, r - 1.0, ctx.rng.uniform(-0.49, r - 0.51), float(ctx.rng.randrange(r)) + 0.5]) for _ in range(n)], dtype=float)
         close = G.is_close_to_land(M, i, j)
         ni, nj = G.nearest_unmasked(np.logical_not(M), i, j)
         bits = " ".join(str(int(not bool(x))) for x in M.ravel())        # land mask
+        if n != 6:
+            ctx.case(key=("helper.len", c, n), nontrivial=True); ctx.branch("helpers.len%d" % n)
+            ctx.oracle(np.shape(close) == (n,) and np.shape(ni) == (n,) and np.shape(nj) == (n,), "C11.helpers.result_length", site,
+                       "%d positions queried, results of shape %r / %r / %r" % (n, np.shape(close), np.shape(ni), np.shape(nj)), dict(M=M.tolist(), i=i.tolist(), j=j.tolist()))
+        # --- the same queries through the Grid methods that the IBM really calls, on a sub-grid with offsets (i0, j0)
+        i0 = ctx.rng.choice([0, 1, 3]); j0 = ctx.rng.choice([0, 1, 2])
+        sub = Obj(M=M.astype(float), i0=i0, j0=j0)
+        X = i + i0; Y = j + j0
+        closeW = G.Grid.is_close_to_land(sub, X, Y)
+        niW, njW = G.Grid.nearest_sea(sub, X, Y)
+        for k in range(n):
+            csw = dict(M=M.tolist(), i0=i0, j0=j0, X=X[k], Y=Y[k])
+            ctx.case(key=("helper.grid", M.tobytes(), i0, j0, float(X[k]), float(Y[k])), nontrivial=True); ctx.branch("helpers.Grid.offset_%d_%d" % (i0, j0))
+            centres = [(a, b) for a in _cells(X[k], i0) for b in _cells(Y[k], j0)]
+            if len(centres) > 1:
+                ctx.branch("helpers.Grid.on_border_odd_offset")
+            ctx.oracle(any(bool(closeW[k]) == _land_around(M, a, b) for a, b in centres), "C11.Grid.is_close_to_land.wrong", site + "::Grid.is_close_to_land",
+                       "sub-grid offset (%d,%d), position (%r,%r): returned %r, exhaustive eight-neighbourhood search around mask cell %r says %r"
+                       % (i0, j0, X[k], Y[k], bool(closeW[k]), centres, [_land_around(M, a, b) for a, b in centres]), csw)
+            xl = X[k] - i0; yl = Y[k] - j0
+            cands = [(a, b, _sea_among_nine(M, a, b, xl, yl)) for a, b in centres]
+            if all(cd for _, _, cd in cands):          # (no sea cell among the nine: nothing is stated)
+                okn = False
+                if 0 <= njW[k] < r and 0 <= niW[k] < cc and M[njW[k], niW[k]] == 1:
+                    got_d = (niW[k] - xl) ** 2 + (njW[k] - yl) ** 2
+                    # same tolerance as for nearest_unmasked below: ties between equidistant cells may be broken either way
+                    okn = any(got_d <= min(q[0] for q in cd) * (1 + 1e-12) + 1e-15 for _, _, cd in cands)
+                ctx.oracle(okn, "C11.Grid.nearest_sea.wrong", site + "::Grid.nearest_sea",
+                           "sub-grid offset (%d,%d), position (%r,%r): returned mask cell (%d,%d), which is not the nearest sea cell among the nine" % (i0, j0, X[k], Y[k], niW[k], njW[k]), csw)
+            if drv.available:
+                icw = int(np.round(xl)); jcw = int(np.round(yl))
+                pend.append(("close", drv.ask("nb.close", I(r), I(cc), bits, I(icw), I(jcw)), bool(closeW[k]), csw))
+                if _sea_among_nine(M, icw, jcw, xl, yl):
+                    pend.append(("nearest", drv.ask("nb.nearest", I(r), I(cc), bits, F(xl), F(yl), I(icw), I(jcw)), (int(niW[k]), int(njW[k])), csw))
         for k in range(n):
             ic = int(np.round(i[k])); jc = int(np.round(j[k]))
             cs = dict(M=M.tolist(), i=i[k], j=j[k])
@@ -62,33 +144,75 @@ def helpers(ctx, drv, pend, G):
 
 
 def make_ibm(modname, strategy):
+    """`strategy` None: the `land_collision` key is absent (documented default: reposition)"""
     import logging
     from . import ibmrun
     M = ibmrun.mod(modname)
+    lc = {} if strategy is None else dict(land_collision=strategy)
     if modname == "chemicals":
-        return M.IBM(dict(dt=60.0, ibm=dict(land_collision=strategy, vertical_advection=False)))
-    return M.IBM(dict(dt=60.0, ibm=dict(lifespan=1e12, vertical_mixing=0.0, taucrit=1000, land_collision=strategy),
+        return M.IBM(dict(dt=60.0, ibm=dict(vertical_advection=False, **lc)))
+    return M.IBM(dict(dt=60.0, ibm=dict(lifespan=1e12, vertical_mixing=0.0, taucrit=1000, **lc),
                       output_instance=[], nc_attributes={}))
 
 
+STUB_FIELDS = ("pid", "alive", "active", "X", "Y", "Z", "age", "sink_vel")
+
+
+def _stub_take(state, idx):
+    """fresh arrays holding the entries `idx` (drops / reorders particles of the stub state)"""
+    idx = np.asarray(idx, dtype=int)
+    for f in STUB_FIELDS:
+        state[f] = np.array(state[f])[idx]
+
+
+def _stub_append(state, new, pids):
+    k = len(pids)
+    extra = dict(new, pid=np.asarray(pids, dtype=int), alive=np.ones(k, bool), active=np.ones(k))
+    for f in STUB_FIELDS:
+        state[f] = np.concatenate([np.array(state[f]), np.asarray(extra[f])])
+
+
 def histories(ctx, drv, pend, G):
-    for modname, strategy, container in [("chemicals", "reposition", "real"), ("chemicals", "reposition", "stub"),
-                                         ("mine", "reposition", "real"), ("mine", "reposition", "stub"),
-                                         ("chemicals", "coastal_diffusion", "real"), ("chemicals", "freeze", "real")]:
-        site = "ladim_plugins/%s/ibm.py::reposition" % modname if strategy == "reposition" else "ladim_plugins/chemicals/ibm.py::" + strategy
-        for h in range(ctx.n(40, 400)):
+    N1 = ctx.n(40, 400); N2 = ctx.n(15, 150)
+    rows = [("chemicals", "reposition", "real", N1), ("chemicals", "reposition", "stub", N1),
+            ("mine", "reposition", "real", N1), ("mine", "reposition", "stub", N1),
+            ("chemicals", "coastal_diffusion", "real", N1), ("chemicals", "freeze", "real", N1),
+            # mine reads the same option; the key may be absent (default: reposition) in both modules
+            ("mine", "freeze", "real", N2), ("mine", "freeze", "stub", N2), ("mine", "coastal_diffusion", "real", N2),
+            ("mine", None, "real", N2), ("chemicals", None, "stub", N2), ("chemicals", "coastal_diffusion", "stub", N2)]
+    for modname, cfg, container, count in rows:
+        strategy = cfg or "reposition"
+        if modname == "chemicals":
+            site = "ladim_plugins/chemicals/ibm.py::" + strategy
+        else:
+            site = "ladim_plugins/mine/ibm.py::reposition"
+        ptag = strategy if modname == "chemicals" else "mine." + strategy       # predicate infix of the non-reposition oracles
+        for h in range(count):
             r = ctx.rng.randrange(6, 12); cc = ctx.rng.randrange(6, 12)
+            # sub-grid offsets: particle coordinates are global, the mask of the grid object starts at (ox, oy)
+            ox = ctx.rng.choice([0, 0, 1, 3]); oy = ctx.rng.choice([0, 0, 1, 2])
             Msea = np.array([[1 if ctx.rng.random() < 0.75 else 0 for _ in range(cc)] for _ in range(r)])
-            env = LinEnv(h0=50.0, xmin=0.0, xmax=cc - 1.0, ymin=0.0, ymax=r - 1.0)
+            xlo, xhi, ylo, yhi = float(ox), ox + cc - 1.0, float(oy), oy + r - 1.0
+            env = LinEnv(h0=50.0, xmin=xlo, xmax=xhi, ymin=ylo, ymax=yhi)
             g = env.grid()
-            g.grid = Obj(is_close_to_land=lambda x, y, _M=Msea: G.is_close_to_land(_M, x, y))
-            ibm = make_ibm(modname, strategy)
+            sub = Obj(M=Msea.astype(float), i0=ox, j0=oy)
+            # the real Grid method (subtracts the sub-grid offset, then the eight-neighbourhood query)
+            g.grid = Obj(is_close_to_land=lambda x, y, _s=sub: G.Grid.is_close_to_land(_s, x, y))
+            ibm = make_ibm(modname, cfg)
             n0 = ctx.rng.randrange(1, 6)
+
+            def coord(m, off):
+                # anywhere in the interior: continuous, exactly on a rho point, exactly on a cell border
+                t = ctx.rng.random()
+                if t < 0.7:
+                    return off + ctx.rng.uniform(0.6, m - 1.6)
+                k = ctx.rng.randrange(1, m - 1)
+                return off + (float(k) if t < 0.85 else k - 0.5)
             # half of the histories release from a point source (every new particle at exactly the same position,
             # as a `location: [lon, lat]` release does), so that a new particle can sit exactly where another one was
-            source = (ctx.rng.uniform(0.6, cc - 1.6), ctx.rng.uniform(0.6, r - 1.6)) if ctx.rng.random() < 0.5 else None
-            newp = lambda n: dict(X=np.array([source[0] if source else ctx.rng.uniform(0.6, cc - 1.6) for _ in range(n)]),
-                                  Y=np.array([source[1] if source else ctx.rng.uniform(0.6, r - 1.6) for _ in range(n)]),
+            source = (coord(cc, ox), coord(r, oy)) if ctx.rng.random() < 0.5 else None
+            newp = lambda n: dict(X=np.array([source[0] if source else coord(cc, ox) for _ in range(n)], dtype=float),
+                                  Y=np.array([source[1] if source else coord(r, oy) for _ in range(n)], dtype=float),
                                   Z=np.full(n, 5.0), age=np.zeros(n), sink_vel=np.full(n, 1e-9))
             if container == "real":
                 state = real_state(dt=60.0, **newp(n0))
@@ -98,79 +222,155 @@ def histories(ctx, drv, pend, G):
             next_pid = n0
             prev = None          # dict pid -> (x, y) after the previous IBM update
             realloc = True
+            allow_empty = ctx.rng.random() < 0.3       # the particle set may become empty (before a later release)
+            pchange = 0.6 if source else 0.3
             for step in range(ctx.rng.randrange(3, 9)):
                 # --- release
-                if container == "real" and ctx.rng.random() < (0.6 if source else 0.3):
+                if ctx.rng.random() < pchange:
                     k = ctx.rng.randrange(1, 3)
-                    state.append(newp(k)); realloc = True
-                # --- tracker: in-place writes for the real State; fresh arrays for the stub
+                    if container == "real":
+                        state.append(newp(k)); realloc = True
+                    elif ctx.rng.random() < 0.7:
+                        # the stub's particle set changes as well (new pids; fresh arrays)
+                        _stub_append(state, newp(k), range(next_pid, next_pid + k)); realloc = True
+                        ctx.branch("stub.release")
+                    next_pid += k
+                if container == "stub" and len(state.X) > 1 and ctx.rng.random() < 0.3:
+                    # the stub hands out its particles in another order (pids not ascending)
+                    perm = list(range(len(state.X))); ctx.rng.shuffle(perm)
+                    _stub_take(state, perm); ctx.branch("stub.permuted")
                 n = len(state.X)
-                move = np.array([ctx.rng.random() < 0.6 for _ in range(n)])
+                # --- mine: a buried (inactive) particle; LADiM's tracker leaves inactive particles where they are
+                if modname == "mine" and n > 0 and ctx.rng.random() < 0.25:
+                    q = ctx.rng.randrange(n)
+                    if container == "real":
+                        state["active"][q] = False
+                    else:
+                        a_ = np.array(state.active).copy(); a_[q] = 0; state.active = a_
+                act = np.array(state["active"], dtype=bool).reshape(n)
+                # --- tracker: in-place writes for the real State; fresh arrays for the stub
+                move = np.array([ctx.rng.random() < 0.6 for _ in range(n)], dtype=bool) & act
                 # displacements of every size: a particle that moved by a billionth of a cell has moved
                 disp = lambda: ctx.rng.choice([ctx.rng.uniform(-0.4, 0.4), ctx.rng.uniform(-0.4, 0.4), 1e-3, -1e-6, 1e-9, -1e-12])
-                dx = np.array([disp() for _ in range(n)]) * move
-                dy = np.array([ctx.rng.choice([disp(), 0.0]) for _ in range(n)]) * move
+                # ... and in every direction: along both axes, along x only, along y only
+                modes = [ctx.rng.choice(["xy", "xy", "x", "y"]) for _ in range(n)]
+                dx = np.array([disp() if m != "y" else 0.0 for m in modes], dtype=float) * move
+                dy = np.array([ctx.rng.choice([disp(), 0.0]) if m == "xy" else (disp() if m == "y" else 0.0) for m in modes], dtype=float) * move
                 if container == "real":
-                    act = np.ones(n, bool)
-                    state["X"][act] = np.clip(state["X"][act] + dx, 0.0, cc - 1.0)
-                    state["Y"][act] = np.clip(state["Y"][act] + dy, 0.0, r - 1.0)
+                    state["X"][act] = np.clip(state["X"][act] + dx[act], xlo, xhi)
+                    state["Y"][act] = np.clip(state["Y"][act] + dy[act], ylo, yhi)
                 else:
-                    state.X = np.clip(state.X + dx, 0.0, cc - 1.0); state.Y = np.clip(state.Y + dy, 0.0, r - 1.0)
+                    state.X = np.where(act, np.clip(state.X + dx, xlo, xhi), state.X); state.Y = np.where(act, np.clip(state.Y + dy, ylo, yhi), state.Y)
                     state.timestep = step
                 state.timestep = step
                 xb = np.array(state.X).copy(); yb = np.array(state.Y).copy(); pids = np.array(state.pid).copy()
-                with RngRecorder(ctx.sub_seed(), lambda kind, p, v: np.full(v.shape, ctx.rng.choice([0.0, ctx.rng.random(), ctx.rng.random()]))) as rec:
+                # served draws: either one value for the whole call (as before) or a different value per element, incl.
+                # the ends of [0, 1) and the middle (a re-seed onto the rho point itself)
+                elem = ctx.rng.random() < 0.5
+                udraw = lambda: ctx.rng.choice([0.0, ctx.rng.random(), ctx.rng.random(), ctx.rng.random(), ctx.rng.random(), 0.5,
+                                                float(np.nextafter(0.5, 1.0)), 2.0 ** -60] + U_EDGE)
+                def inject(kind, p, v, _elem=elem, _udraw=udraw):
+                    if _elem:
+                        return np.array([_udraw() for _ in range(v.size)], dtype=float).reshape(v.shape)
+                    return np.full(v.shape, ctx.rng.choice([0.0, ctx.rng.random(), ctx.rng.random()]))
+                with RngRecorder(ctx.sub_seed(), inject) as rec:
                     ibm.update_ibm(g, state, env.forcing())
                 xa = np.array(state.X); ya = np.array(state.Y)
                 moved = (xa != xb) | (ya != yb)
-                cs_base = dict(module=modname, strategy=strategy, container=container, history=h, step=step, mask=Msea.tolist())
-                ctx.case(key=(modname, strategy, container, h, step), nontrivial=True, sample=cs_base if h == 0 and step == 0 else None)
-                ctx.branch("%s.%s.%s" % (modname, strategy, container))
+                rands = [e for e in rec.log if e[0] == "rand"]
+                rx = rands[0][3].ravel() if len(rands) > 0 else np.zeros(0)        # draws of the x re-seed
+                ry = rands[1][3].ravel() if len(rands) > 1 else np.zeros(0)        # draws of the y re-seed
+                nn = min(len(rx), len(ry))
+                cs_base = dict(module=modname, strategy=cfg, container=container, history=h, step=step, mask=Msea.tolist(), offset=[ox, oy])
+                ctx.case(key=(modname, cfg, container, h, step), nontrivial=True, sample=cs_base if h == 0 and step == 0 else None)
+                ctx.branch("%s.%s.%s" % (modname, cfg or "default", container))
+                if ox or oy: ctx.branch("histories.subgrid_offset")
+                if n == 0: ctx.branch("histories.empty_state")
+                if elem and nn > 1: ctx.branch("histories.distinct_draws")
                 for k in range(len(pids)):
-                    cs = dict(cs_base, pid=int(pids[k]), before=[xb[k], yb[k]], after=[xa[k], ya[k]], previous=(prev or {}).get(int(pids[k])))
+                    cs = dict(cs_base, pid=int(pids[k]), before=[xb[k], yb[k]], after=[xa[k], ya[k]], previous=(prev or {}).get(int(pids[k])),
+                              active=bool(act[k]))
+                    cxk = np.round(xb[k]); cyk = np.round(yb[k])
+                    if xb[k] - np.floor(xb[k]) == 0.5 or yb[k] - np.floor(yb[k]) == 0.5: ctx.branch("histories.on_cell_border")
                     if moved[k]:
-                        ctx.oracle(np.round(xb[k]) - 0.5 <= xa[k] <= np.round(xb[k]) + 0.5 and np.round(yb[k]) - 0.5 <= ya[k] <= np.round(yb[k]) + 0.5,
+                        ctx.oracle(cxk - 0.5 <= xa[k] <= cxk + 0.5 and cyk - 0.5 <= ya[k] <= cyk + 0.5,
                                    "C11.%s.left_cell" % strategy, site, "moved from (%r,%r) to (%r,%r): outside its cell" % (xb[k], yb[k], xa[k], ya[k]), cs)
+                        # the cell is half open, [c - 1/2, c + 1/2) (Lean: C11.reseed_in_cell): c + 1/2 is the border of /
+                        # belongs to the next cell
+                        # judged with the cell convention of the code itself (`np.round`, ties to even): a particle put
+                        # exactly on c + 1/2 is still in cell c when c is even, and in cell c + 1 when c is odd
+                        ctx.oracle(np.round(xa[k]) == cxk and np.round(ya[k]) == cyk,
+                                   "C11.%s.left_cell.upper_border" % strategy, site,
+                                   "moved from (%r,%r) to (%r,%r): on the upper border of its cell [c-1/2, c+1/2), i.e. in the next cell" % (xb[k], yb[k], xa[k], ya[k]),
+                                   dict(cs, draws_x=rx.tolist(), draws_y=ry.tolist()))
                     if strategy == "freeze":
-                        ctx.oracle(not moved[k], "C11.freeze.moved", site, "particle moved under freeze", cs)
+                        ctx.oracle(not moved[k], "C11.%s.moved" % ptag, site, "particle moved under freeze", cs)
                     elif strategy == "coastal_diffusion":
-                        coastal = bool(G.is_close_to_land(Msea, np.array([xb[k]]), np.array([yb[k]]))[0])
-                        ctx.oracle((not moved[k]) or coastal, "C11.coastal_diffusion.moved_non_coastal", site, "non-coastal particle moved", cs)
+                        coastal = bool(G.is_close_to_land(Msea, np.array([xb[k] - ox]), np.array([yb[k] - oy]))[0])
+                        ctx.oracle((not moved[k]) or coastal, "C11.%s.moved_non_coastal" % ptag, site, "non-coastal particle moved", cs)
+                        # independent of the helper: exhaustive search around the mask cell the particle occupies
+                        centres = [(a, b) for a in _cells(xb[k], ox) for b in _cells(yb[k], oy)]
+                        coastal_x = any(_land_around(Msea, min(max(a, 0), cc - 1), min(max(b, 0), r - 1)) for a, b in centres)
+                        ctx.oracle((not moved[k]) or coastal_x, "C11.%s.moved_non_coastal" % ptag, site,
+                                   "particle moved although none of the eight neighbours of its cell %r (sub-grid offset (%d,%d)) is land" % (centres, ox, oy), cs)
                     else:
                         was = prev is not None and int(pids[k]) in prev
                         same = was and prev[int(pids[k])] == (xb[k], yb[k])
+                        if was and not same:
+                            px, py = prev[int(pids[k])]
+                            if px == xb[k]: ctx.branch("tracker.moved_along_y_only")
+                            elif py == yb[k]: ctx.branch("tracker.moved_along_x_only")
+                        if not act[k]: ctx.branch("mine.inactive_particle")
                         if moved[k]:
                             # the known finding F-C11a (remembered positions alias the State arrays) only explains a
                             # re-seeded free particle under the real State when no reallocation happened since the
-                            # positions were stored; everywhere else the same symptom is a different defect
-                            aliased = (container == "real" and not realloc)
+                            # positions were stored, and only for a particle whose position was stored; everywhere
+                            # else the same symptom is a different defect
+                            aliased = (container == "real" and not realloc and was)
                             pred = "C11.%s.reposition.moved_free_particle" % modname + ("" if aliased else ".no_alias")
-                            ctx.oracle(same, pred, site,
+                            ctx.oracle(same, pred, "ladim_plugins/%s/ibm.py::reposition" % modname,
                                        "pid %d moved by the collision handler although %s" % (int(pids[k]), "the tracker had moved it from %r to %r" % (prev[int(pids[k])], (xb[k], yb[k])) if was else "it did not exist in the previous step"), cs)
                         elif same:
                             # reseeding with the served draw moves the particle unless the new position coincides
                             pass
-                        if drv.available and prev is not None:
+                        # which served draw re-seeds this particle onto (xa, ya) / onto itself (same index for x and y)
+                        sx = cxk - 0.5 + rx[:nn]; sy = cyk - 0.5 + ry[:nn]
+                        noop = bool(np.any((sx == xb[k]) & (sy == yb[k])))
+                        hit = np.nonzero((sx == xa[k]) & (sy == ya[k]))[0]
+                        # the model of the memory does not know mine's `active` flag: an inactive particle is not asked
+                        if drv.available and prev is not None and act[k]:
                             kind = 1 if (modname == "chemicals" and container == "real") else 0
                             mem = " ".join("%d %s %s" % (p, F(x), F(y)) for p, (x, y) in prev.items())
-                            u_ = float(rec.log[0][3].ravel()[0]) if (rec.log and rec.log[0][3].size) else None
-                            noop = u_ is not None and (np.round(xb[k]) - 0.5 + u_ == xb[k]) and (np.round(yb[k]) - 0.5 + u_ == yb[k])
                             pend.append(("decides", drv.ask("mem.decides", I(kind), B(realloc), I(len(prev)), mem, I(int(pids[k])), F(xb[k]), F(yb[k])),
                                          (bool(moved[k]), bool(noop)), dict(cs, realloc=realloc)))
                         if drv.available and moved[k] and rec.log:
-                            u = float(rec.log[0][3].ravel()[0]) if rec.log[0][3].size else 0.0
+                            m = int(hit[0]) if len(hit) else 0
+                            u = float(rx[m]) if len(rx) > m else 0.0
                             pend.append(("reseed", drv.ask("chem.reseed", F(xb[k]), F(u)), xa[k], cs))
+                            if len(ry) > m:
+                                pend.append(("reseed_y", drv.ask("chem.reseed", F(yb[k]), F(float(ry[m]))), ya[k], cs))
                 prev = {int(p): (float(x), float(y)) for p, x, y in zip(pids, xa, ya)}
                 realloc = False
                 # --- removal of dead particles (LADiM removes after the IBM update)
-                if container == "real" and ctx.rng.random() < (0.6 if source else 0.3) and len(state.X) > 1:
-                    kill = np.zeros(len(state.X), bool); kill[ctx.rng.randrange(len(state.X))] = True
-                    state.remove(kill); realloc = True
-                    prev = {p: v for p, v in prev.items() if p in set(int(q) for q in state.pid)}
+                if ctx.rng.random() < pchange and len(state.X) > (0 if allow_empty else 1):
+                    q = ctx.rng.randrange(len(state.X))
+                    if container == "real":
+                        kill = np.zeros(len(state.X), bool); kill[q] = True
+                        state.remove(kill); realloc = True
+                    elif ctx.rng.random() < 0.7:
+                        _stub_take(state, [t for t in range(len(state.X)) if t != q]); realloc = True
+                        ctx.branch("stub.removal")
+                    alive_pids = set(int(q_) for q_ in state.pid)
+                    prev = {p: v for p, v in prev.items() if p in alive_pids}
 
 
 def swimming(ctx, drv=None, pend=None):
     from . import ibmrun
+
+    def start(m):
+        # anywhere in the grid, more often within one step of the grid edge
+        return ctx.rng.choice([ctx.rng.uniform(0, m - 1), ctx.rng.uniform(0, m - 1), ctx.rng.uniform(0, m - 1),
+                               ctx.rng.uniform(0, 0.4), ctx.rng.uniform(m - 1.4, m - 1)])
     # lunar eel: horizontal_advect with the moon function forced on
     Me = ibmrun.mod("lunar_eel")
     for c in range(ctx.n(40, 600)):
@@ -183,27 +383,42 @@ def swimming(ctx, drv=None, pend=None):
         finally:
             Me.get_moon_function = saved
         ang = ctx.rng.uniform(0, 6.28)
-        grid = Obj(grid=Obj(angle=np.full((r, cc), ang), dx=np.full((r, cc), 800.0), dy=np.full((r, cc), 800.0)),
+        if ctx.rng.random() < 0.5:
+            angle = np.full((r, cc), ang); dxa = np.full((r, cc), 800.0); dya = np.full((r, cc), 800.0)
+        else:
+            # curvilinear grid: the orientation and the cell sizes differ from cell to cell
+            angle = ang + np.array([[ctx.rng.uniform(-0.6, 0.6) for _ in range(cc)] for _ in range(r)])
+            dxa = np.array([[ctx.rng.uniform(500.0, 1300.0) for _ in range(cc)] for _ in range(r)])
+            dya = np.array([[ctx.rng.uniform(500.0, 1300.0) for _ in range(cc)] for _ in range(r)])
+            ctx.branch("eel.curvilinear_grid")
+        grid = Obj(grid=Obj(angle=angle, dx=dxa, dy=dya),
                    ingrid=lambda x, y: (x > -0.5) & (x < cc - 0.5) & (y > -0.5) & (y < r - 0.5),
                    atsea=lambda x, y: M[np.clip(np.round(y).astype(int), 0, r - 1), np.clip(np.round(x).astype(int), 0, cc - 1)] > 0)
+        # the swimming direction of every cell, from the grid as given to the IBM (same array expressions as the IBM's)
+        azim = ibm.direction * np.pi / 180.0
+        xs_dx = np.sin(azim + angle) / dxa; ys_dy = np.cos(azim + angle) / dya
         n = 6
-        X = np.array([ctx.rng.uniform(0, cc - 1) for _ in range(n)]); Y = np.array([ctx.rng.uniform(0, r - 1) for _ in range(n)])
+        X = np.array([start(cc) for _ in range(n)]); Y = np.array([start(r) for _ in range(n)])
         state = real_state(dt=600.0, timestamp=np.datetime64("2020-01-01T00:00:00"), X=X.copy(), Y=Y.copy(), Z=np.full(n, 5.0))
-        with RngRecorder(ctx.sub_seed()):
-            ibm.update_ibm(grid, state, None)
         bits = " ".join(str(int(v)) for v in M.ravel())
-        for k in range(n):
-            stayed = state.X[k] == X[k] and state.Y[k] == Y[k]
-            xs, ys = np.array([state.X[k]]), np.array([state.Y[k]])
-            ok = stayed or (bool(grid.ingrid(xs, ys)[0]) and bool(grid.atsea(xs, ys)[0]))
-            ctx.case(key=("eel", c, k), nontrivial=True); ctx.branch("eel.directed_swim")
-            if drv is not None and drv.available:
-                i_ = int(np.round(X[k])); j_ = int(np.round(Y[k]))
-                cx = X[k] + ibm.speed * ibm.dt * ibm.xs_dx[j_, i_]; cy = Y[k] + ibm.speed * ibm.dt * ibm.ys_dy[j_, i_]
-                pend.append(("swim", drv.ask("swim.eel", F(-0.0 + 0.0), F(cc - 1.0), F(0.0), F(r - 1.0), I(r), I(cc), I(r * cc), bits, F(X[k]), F(Y[k]), F(cx), F(cy)),
-                             (float(state.X[k]), float(state.Y[k]), None), dict(mask=M.tolist(), k=k, module="lunar_eel")))
-            ctx.oracle(ok, "C11.lunar_eel.swam_onto_land_or_out", "ladim_plugins/lunar_eel/ibm.py::horizontal_advect",
-                       "from (%r,%r) to (%r,%r)" % (X[k], Y[k], state.X[k], state.Y[k]), dict(mask=M.tolist(), k=k))
+        for st in range(ctx.rng.choice([1, 3])):
+            X = np.array(state.X).copy(); Y = np.array(state.Y).copy()
+            with RngRecorder(ctx.sub_seed()):
+                ibm.update_ibm(grid, state, None)
+            for k in range(n):
+                stayed = state.X[k] == X[k] and state.Y[k] == Y[k]
+                xs, ys = np.array([state.X[k]]), np.array([state.Y[k]])
+                ok = stayed or (bool(grid.ingrid(xs, ys)[0]) and bool(grid.atsea(xs, ys)[0]))
+                ctx.case(key=("eel", c, k) if st == 0 else ("eel", c, k, st), nontrivial=True); ctx.branch("eel.directed_swim")
+                if st: ctx.branch("eel.later_step")
+                csk = dict(mask=M.tolist(), k=k, module="lunar_eel", step=st, start=[X[k], Y[k]])
+                if drv is not None and drv.available:
+                    i_ = int(np.round(X[k])); j_ = int(np.round(Y[k]))
+                    cx = X[k] + ibm.speed * ibm.dt * xs_dx[j_, i_]; cy = Y[k] + ibm.speed * ibm.dt * ys_dy[j_, i_]
+                    pend.append(("swim", drv.ask("swim.eel", F(-0.0 + 0.0), F(cc - 1.0), F(0.0), F(r - 1.0), I(r), I(cc), I(r * cc), bits, F(X[k]), F(Y[k]), F(cx), F(cy)),
+                                 (float(state.X[k]), float(state.Y[k]), None), csk))
+                ctx.oracle(ok, "C11.lunar_eel.swam_onto_land_or_out", "ladim_plugins/lunar_eel/ibm.py::horizontal_advect",
+                           "from (%r,%r) to (%r,%r)" % (X[k], Y[k], state.X[k], state.Y[k]), csk)
     # saithe: spread
     Ms = ibmrun.mod("saithe")
     for c in range(ctx.n(40, 600)):
@@ -214,30 +429,41 @@ def swimming(ctx, drv=None, pend=None):
         g = env.grid()
         g.atsea = lambda x, y: M[np.clip(np.round(y).astype(int), 0, r - 1), np.clip(np.round(x).astype(int), 0, cc - 1)] > 0
         n = 6
-        X = np.array([ctx.rng.uniform(0, cc - 1) for _ in range(n)]); Y = np.array([ctx.rng.uniform(0, r - 1) for _ in range(n)])
+        X = np.array([start(cc) for _ in range(n)]); Y = np.array([start(r) for _ in range(n)])
         state = real_state(dt=ibm.dt, timestamp=np.datetime64("2020-06-01T12:00:00"), X=X.copy(), Y=Y.copy(), Z=np.full(n, 40.0),
                            age=np.array([ctx.rng.choice([10.0, 70.0, 100.0]) for _ in range(n)]), weight=np.full(n, 1.0),
                            egg_buoy=np.full(n, 33.0), temp=np.zeros(n), salt=np.zeros(n), direction=np.zeros(n))
-        with RngRecorder(ctx.sub_seed()):
-            ibm.update_ibm(g, state, env.forcing())
         bits = " ".join(str(int(v)) for v in M.ravel())
-        d_after = np.array(state["direction"])
-        for k in range(n):
-            stayed = state.X[k] == X[k] and state.Y[k] == Y[k]
-            xs, ys = np.array([state.X[k]]), np.array([state.Y[k]])
-            ok = stayed or (bool(g.ingrid(xs, ys)[0]) and bool(g.atsea(xs, ys)[0]))
-            ctx.case(key=("saithe", c, k), nontrivial=True); ctx.branch("saithe.directed_swim")
-            directed = (not np.isnan(d_after[k])) and (state["age"][k] > ibm.hatch_day)
-            if drv is not None and drv.available and directed:
-                om = 1 / 800.0
-                cx = X[k] + 1 * 0.01 * om * ibm.dt * np.cos(d_after[k]); cy = Y[k] + 1 * 0.01 * om * ibm.dt * np.sin(d_after[k])
-                pend.append(("swim", drv.ask("swim.saithe", F(0.0), F(cc - 1.0), F(0.0), F(r - 1.0), I(r), I(cc), I(r * cc), bits, F(X[k]), F(Y[k]), F(cx), F(cy)),
-                             (float(state.X[k]), float(state.Y[k]), bool(state.alive[k])), dict(mask=M.tolist(), k=k, module="saithe")))
-            elif not directed:
-                ctx.oracle(stayed and bool(state.alive[k]), "C11.saithe.undirected_moved", "ladim_plugins/saithe/ibm.py::spread",
-                           "an egg / non-directed larva was moved or retired by the directed swimming", dict(mask=M.tolist(), k=k))
-            ctx.oracle(ok, "C11.saithe.swam_onto_land_or_out", "ladim_plugins/saithe/ibm.py::spread",
-                       "from (%r,%r) to (%r,%r)" % (X[k], Y[k], state.X[k], state.Y[k]), dict(mask=M.tolist(), k=k))
+        # later steps: the directions drawn in the first step are kept; a larva that was held back at the coast tries again
+        for st in range(ctx.rng.choice([1, 3])):
+            n = len(state.X)
+            if n == 0:
+                break
+            X = np.array(state.X).copy(); Y = np.array(state.Y).copy()
+            with RngRecorder(ctx.sub_seed()):
+                ibm.update_ibm(g, state, env.forcing())
+            d_after = np.array(state["direction"])
+            for k in range(n):
+                stayed = state.X[k] == X[k] and state.Y[k] == Y[k]
+                xs, ys = np.array([state.X[k]]), np.array([state.Y[k]])
+                ok = stayed or (bool(g.ingrid(xs, ys)[0]) and bool(g.atsea(xs, ys)[0]))
+                ctx.case(key=("saithe", c, k) if st == 0 else ("saithe", c, k, st), nontrivial=True); ctx.branch("saithe.directed_swim")
+                if st: ctx.branch("saithe.later_step")
+                csk = dict(mask=M.tolist(), k=k, module="saithe", step=st, start=[X[k], Y[k]])
+                directed = (not np.isnan(d_after[k])) and (state["age"][k] > ibm.hatch_day)
+                if drv is not None and drv.available and directed:
+                    om = 1 / 800.0
+                    cx = X[k] + 1 * 0.01 * om * ibm.dt * np.cos(d_after[k]); cy = Y[k] + 1 * 0.01 * om * ibm.dt * np.sin(d_after[k])
+                    pend.append(("swim", drv.ask("swim.saithe", F(0.0), F(cc - 1.0), F(0.0), F(r - 1.0), I(r), I(cc), I(r * cc), bits, F(X[k]), F(Y[k]), F(cx), F(cy)),
+                                 (float(state.X[k]), float(state.Y[k]), bool(state.alive[k])), csk))
+                elif not directed:
+                    ctx.oracle(stayed and bool(state.alive[k]), "C11.saithe.undirected_moved", "ladim_plugins/saithe/ibm.py::spread",
+                               "an egg / non-directed larva was moved or retired by the directed swimming", csk)
+                ctx.oracle(ok, "C11.saithe.swam_onto_land_or_out", "ladim_plugins/saithe/ibm.py::spread",
+                           "from (%r,%r) to (%r,%r)" % (X[k], Y[k], state.X[k], state.Y[k]), csk)
+            dead = ~np.array(state.alive, dtype=bool)          # LADiM removes retired particles after the IBM update
+            if dead.any():
+                state.remove(dead)
 
 
 def run(ctx):
@@ -270,6 +496,8 @@ def run(ctx):
                 ctx.eq("directed_swim.%s" % cs["module"], (impl[0], impl[1], impl[2]), got, cs)
             elif kind == "reseed":
                 ctx.eq_bits("reposition.reseed_x", impl, unF(t[0]), cs)
+            elif kind == "reseed_y":
+                ctx.eq_bits("reposition.reseed_y", impl, unF(t[0]), cs)
 
 
 def replay(payload):
